@@ -156,6 +156,37 @@ func bothVerdictsGuarded(inv *invocation.Token, ld delegation.Loader) (e1, e2 er
 	return e1, e2
 }
 
+// oddHooks: what a careless or hostile caller-supplied hook may do instead of returning arguments. None of it may turn
+// a refusal into "allowed": a chain that the reference refuses is refused whatever the hook returns (a panic that
+// reaches the caller is not "allowed" either).
+var oddHooks = []struct {
+	Name string
+	Hook func(args.ReadOnly) (*args.Args, error)
+}{
+	{"hook-returns-nil-nil", func(args.ReadOnly) (*args.Args, error) { return nil, nil }},
+	{"hook-returns-empty-args", func(args.ReadOnly) (*args.Args, error) { return args.New(), nil }},
+	{"nil-hook", nil},
+}
+
+// oddHooksRefuse charges every odd hook with which ExecutionAllowedWithArgsHook returns nil for a check the reference refuses.
+func oddHooksRefuse(ctx *engine.Ctx, cs any, inv *invocation.Token, ld delegation.Loader, why string) {
+	for _, h := range oddHooks {
+		var e error
+		func() {
+			defer func() {
+				if recover() != nil {
+					e = errPanicked
+				}
+			}()
+			e = inv.ExecutionAllowedWithArgsHook(ld, h.Hook)
+		}()
+		ctx.Eval(1)
+		if e == nil {
+			ctx.Failf(cs, "allowed-through-"+h.Name, "ExecutionAllowedWithArgsHook with %s returned nil (allowed) for a check that must be refused: %s", h.Name, why)
+		}
+	}
+}
+
 // Principal layouts of an n-link chain (link i: issuer = holder i+1, audience = holder i; holder n is
 // the subject p0, holder 0 the invoker).
 //
